@@ -124,8 +124,18 @@ def run(ctx):
                         "globally defined quadrilateral/hexahedral C1 elements are claimed on structured meshes only",
                         "continuity at ALL points is inferred from the comparison points being unisolvent for the "
                         "trace polynomials of the element (search), and proved only through the sign/sharing logic"]
+    # the moment / trace tables the theorems quote are regenerated from the live lbasis of every element
+    try:
+        from ..gens import shapes as genshapes
+        ctx.notes["generated_files_changed"] = bool(genshapes.generate())
+        rep = genshapes.generate.report
+        ctx.notes["traced_elements"] = len(rep.get("traced", []))
+    except Exception as ex:
+        ctx.broken.append({"kind": "translator", "what": "shape functions could not be traced", "err": repr(ex)})
     if not getattr(ctx, "no_lean", False):
-        ctx.prove(["SkfemVerif.Props.C03"], ["SkfemVerif/Props/C03.lean"])
+        ctx.prove(["SkfemVerif.Props.C03", "SkfemVerif.Props.C03b"],
+                  ["SkfemVerif/Props/C03.lean", "SkfemVerif/Props/C03b.lean"],
+                  extra_theorem_files=["SkfemVerif/Gen/TraceFacts.lean"])
     rng = ctx.rng
     n = ctx.scale(260, 2500)
     tried = 0
